@@ -1380,8 +1380,8 @@ func (g *Gen) program(n int) {
 	if g.profile == "feeds" || g.profile == "multi" {
 		i := 0
 		for _, c := range g.colls {
-			// up to two live feeds per collection, full and keys-only in either order of registration
-			for _, p := range []int{70, 35} {
+			// up to three live feeds per collection, full and keys-only in either order of registration
+			for _, p := range []int{70, 40, 50} {
 				if !g.r.chance(p) {
 					break
 				}
